@@ -32,27 +32,39 @@ package bed
 //@   loop 1 invariant 0 <= idx && idx <= len(c) && len(a) == len(c)
 
 //@ func parseBed3
-//@   property C03
+//@   property C03 C04
+//@   assigns fresh, splitCount(0)
+//@   ensures [parsed] splitCount(0) > old(splitCount(0))
 //@   ensures [value-or-error] b != nil || err != nil
 //@   ensures [error-ptr] err != nil && typeis(err, *csv.ParseError) ==> ref(err) != 0
 //@ func parseBed4
-//@   property C03
+//@   property C03 C04
+//@   assigns fresh, splitCount(0)
+//@   ensures [parsed] splitCount(0) > old(splitCount(0))
 //@   ensures [value-or-error] b != nil || err != nil
 //@   ensures [error-ptr] err != nil && typeis(err, *csv.ParseError) ==> ref(err) != 0
 //@ func parseBed5
-//@   property C03
+//@   property C03 C04
+//@   assigns fresh, splitCount(0)
+//@   ensures [parsed] splitCount(0) > old(splitCount(0))
 //@   ensures [value-or-error] b != nil || err != nil
 //@   ensures [error-ptr] err != nil && typeis(err, *csv.ParseError) ==> ref(err) != 0
 //@ func parseBed6
-//@   property C03
+//@   property C03 C04
+//@   assigns fresh, splitCount(0)
+//@   ensures [parsed] splitCount(0) > old(splitCount(0))
 //@   ensures [value-or-error] b != nil || err != nil
 //@   ensures [error-ptr] err != nil && typeis(err, *csv.ParseError) ==> ref(err) != 0
 //@ func parseBed12
-//@   property C03
+//@   property C03 C04
+//@   assigns fresh, splitCount(0)
+//@   ensures [parsed] splitCount(0) > old(splitCount(0))
 //@   ensures [value-or-error] b != nil || err != nil
 //@   ensures [error-ptr] err != nil && typeis(err, *csv.ParseError) ==> ref(err) != 0
 
 //@ func (*Reader).Read
-//@   property C03
+//@   property C03 C04
 //@   requires r != nil && r.r != nil
+//@   requires r.BedType == 3 || r.BedType == 4 || r.BedType == 5 || r.BedType == 6 || r.BedType == 12
 //@   ensures [value-or-error] (f != nil && ref(f) != 0) || err != nil
+//@   ensures [no-data-loss]   lastErr(r.r) == io.EOF && lastLen(r.r) > 0 ==> splitCount(0) > old(splitCount(0))
